@@ -29,6 +29,7 @@ func init() {
 			"C05.R3 E7 layout of append-built records vs the layouts parsed from doc/LJH.md and the off.go comment; provenance of the values passed by PublishData",
 			"C05.R4 header key sets: writer format string vs reader patterns",
 			"C05.R6 dominance / control of create-header-record in PublishData; range loop over the published records",
+			"C05.R8 a change of the record length is refused while files are open: for every RPC handler that reaches a store of the processors' NSamples/NPresamples, each way to it (handler, queued closure, source method) is control-dependent on a test computed from the writing state's Active flag alone",
 			"C05.R7 every printf-style call in the file-format packages (ljh, off) has a constant format string",
 		},
 		Assumptions: []string{"json.Marshal serialises exactly the exported fields (no custom marshaller on the writer types)"},
@@ -49,6 +50,8 @@ func runC05(p *Prog, r *Report) {
 	c05R4(p, r)
 	c05R6(p, r)
 	c05R7(p, r)
+	r.MinInstances["C05.R8"] = 1
+	c05R8(p, r)
 }
 
 // ---- R1 -----------------------------------------------------------------------------------
@@ -1012,6 +1015,83 @@ func recordLayout(fn *ssa.Function) *recLayout {
 				continue
 			}
 			w := win{}
+			// binary.LittleEndian.PutUintNN(buf[k:], v): a part of NN/8 bytes at k; inside a range
+			// loop over a slice, at k + size*index: the variable-length block of that slice
+			var put *ssa.Call
+			for _, r2 := range *sl.Referrers() {
+				if c, ok := r2.(*ssa.Call); ok && c.Call.StaticCallee() != nil && strings.Contains(CalleeName(&c.Call), "encoding/binary") && len(c.Call.Args) >= 2 && c.Call.Args[len(c.Call.Args)-2] == ssa.Value(sl) {
+					put = c
+				}
+			}
+			if put != nil {
+				size := map[string]int{"PutUint16": 2, "PutUint32": 4, "PutUint64": 8}[put.Call.StaticCallee().Name()]
+				if size == 0 {
+					L.unknown = "a record part is written by " + CalleeName(&put.Call)
+					continue
+				}
+				if strings.Contains(CalleeName(&put.Call), "bigEndian") {
+					L.problems = append(L.problems, "a record part is written big-endian at "+fmt.Sprint(put.Pos()))
+				}
+				v := put.Call.Args[len(put.Call.Args)-1]
+				isFloat := false
+				for i := 0; i < 4; i++ {
+					if c, ok := v.(*ssa.Convert); ok && isIntLike(c.Type()) && isIntLike(c.X.Type()) && intSize(c.Type()) >= int64(size) {
+						v = c.X
+						continue
+					}
+					if c, ok := v.(*ssa.Call); ok && (IsCallTo(c, "math.Float32bits") || IsCallTo(c, "math.Float64bits")) {
+						isFloat = true
+						v = c.Call.Args[0]
+						continue
+					}
+					break
+				}
+				s := recSlot{size: size, float: isFloat, val: v, instr: put}
+				lo := int64(0)
+				okLo := true
+				if sl.Low != nil {
+					lo, okLo = constInt(sl.Low)
+				}
+				if okLo {
+					w.lo, w.hi, w.s = lo, lo+int64(size), s
+					if InLoop(put) {
+						L.problems = append(L.problems, "a record part is written in a loop at a fixed offset")
+					}
+					wins = append(wins, w)
+					continue
+				}
+				// computed offset: k + size*i with i the index of a range loop over a slice, v its element
+				pc := NewPolyCtx(L.host)
+				lowP := pc.Of(sl.Low)
+				okVar := false
+				for _, rl := range RangeLoops(L.host) {
+					if !rl.Contains(put.Block()) || rl.Idx == nil {
+						continue
+					}
+					isym := polySym(fmt.Sprintf("phi#%d", pc.id(rl.Idx)))
+					if ph, isPhi := rl.Idx.(*ssa.Phi); !isPhi || ph == nil {
+						isym = pc.Of(rl.Idx)
+					}
+					rest := lowP.Sub(isym.Mul(polyConst(int64(size))))
+					k, isK := rest.IsConst()
+					if !isK || !rl.IsElem(v) {
+						continue
+					}
+					if _, isSl := rl.Over.Type().Underlying().(*types.Slice); !isSl {
+						continue
+					}
+					w.lo, w.open = k, true
+					// (placed by a loop that runs over the whole slice: what follows the loop follows every element)
+					w.s = recSlot{varlen: true, elem: size, float: isFloat, val: rl.Over, instr: rl.Header.Instrs[0]}
+					okVar = true
+				}
+				if !okVar {
+					L.unknown = "a record part is written at a computed offset that is not (constant + width x index of a loop over a slice)"
+					continue
+				}
+				wins = append(wins, w)
+				continue
+			}
 			if sl.Low != nil {
 				lo, ok := constInt(sl.Low)
 				if !ok {
